@@ -2,6 +2,7 @@ package main
 
 import (
 	"fmt"
+	"math"
 	"go/token"
 	"go/types"
 	"strings"
@@ -325,6 +326,36 @@ func init() {
 			in.assume(in.ts.And(in.ts.Cmp(OSLe, in.ts.Const(64, 0), t), in.ts.Cmp(OSLt, t, args[1].(*Term))), "rand.Intn range")
 			return t
 		},
+	}
+	for _, n := range []string{"session).log", "session).logf", "DB).log", "DB).logf"} {
+		stdIntrinsics["(*"+modPath+"/leveldb."+n] = nop
+	}
+	f1 := func(f func(float64) float64) intrinsicFn {
+		return func(in *Interp, _ *frame, _ token.Pos, args []Value) Value { return FloatV(f(float64(args[0].(FloatV)))) }
+	}
+	f2 := func(f func(a, b float64) float64) intrinsicFn {
+		return func(in *Interp, _ *frame, _ token.Pos, args []Value) Value {
+			return FloatV(f(float64(args[0].(FloatV)), float64(args[1].(FloatV))))
+		}
+	}
+	stdIntrinsics["math.Pow"] = f2(math.Pow)
+	stdIntrinsics["math.Abs"] = f1(math.Abs)
+	stdIntrinsics["math.Floor"] = f1(math.Floor)
+	stdIntrinsics["math.Ceil"] = f1(math.Ceil)
+	stdIntrinsics["math.Sqrt"] = f1(math.Sqrt)
+	stdIntrinsics["math.Log"] = f1(math.Log)
+	stdIntrinsics["math.Exp"] = f1(math.Exp)
+	stdIntrinsics["math.Max"] = f2(math.Max)
+	stdIntrinsics["math.Min"] = f2(math.Min)
+	stdIntrinsics["math.Float64bits"] = func(in *Interp, _ *frame, _ token.Pos, args []Value) Value {
+		return in.ts.Const(64, math.Float64bits(float64(args[0].(FloatV))))
+	}
+	stdIntrinsics["math.Float64frombits"] = func(in *Interp, _ *frame, _ token.Pos, args []Value) Value {
+		t := args[0].(*Term)
+		if t.op != OConst {
+			panic(unsupported("Float64frombits of symbolic value"))
+		}
+		return FloatV(math.Float64frombits(t.val))
 	}
 	addAtomics()
 }
